@@ -97,15 +97,6 @@ impl Sc {
     }
 }
 
-fn be_name(b: Be) -> &'static str {
-    match b {
-        Be::Generic => "generic",
-        Be::Sse2 => "sse2",
-        Be::Avx2 => "avx2",
-        Be::Dispatch => "dispatch",
-    }
-}
-
 fn dop_name(op: &DOp) -> &'static str {
     match op {
         DOp::Encode { into: false, .. } => "encode",
